@@ -78,9 +78,14 @@ class BaseManager:
         disconnect handler is invoked, but still recognize the fact that the
         client is soon going away.
         """
+        if namespace not in self.rooms or \
+                sid not in self.rooms[namespace][None]:
+            # the client is already gone, there is nothing to mark
+            return None
         if namespace not in self.pending_disconnect:
             self.pending_disconnect[namespace] = []
-        self.pending_disconnect[namespace].append(sid)
+        if sid not in self.pending_disconnect[namespace]:
+            self.pending_disconnect[namespace].append(sid)
         return self.rooms[namespace][None].get(sid)
 
     def basic_disconnect(self, sid, namespace, **kwargs):
